@@ -150,6 +150,12 @@ def nested_programs(tier, hi):
     progs += [("join", I, X, K), ("join", X, I, K), ("join", X, I, None), ("join", I, ("sel", X, K), ("lt", A, B)),
               ("dedup", ("join", ("proj", X, ("a",)), I, K)), ("join", ("join", X, I, K), Z, None), ("join", X, I, ("plit", False)),
               ("chain", ("join", X, I, K), Y)]
+    CH = ("chain", X, Y)
+    TOT = ((A, True), (B, False), (V, True))
+    NEG = ((("neg", A), True), (A, True), (B, True), (V, False))
+    progs += [("slice", ("proj", ("sort", CH, TOT), ("a", "v")), 0, 2), ("proj", ("sort", CH, TOT), ("a",)), ("slice", ("sort", CH, NEG), 1, 3),
+              ("sort", CH, NEG), ("dedup", ("proj", ("slice", ("sort", CH, TOT), 0, 3), ("a",))), ("slice", ("sort", ("dedup", CH), NEG), 0, 2),
+              ("proj", ("slice", ("sort", CH, ((("add", A, B), True),) + TOT), 1, 4), ("b", "v"))]
     E0 = ("slice", X, 0, 0)
     progs += [("join", E0, Z, None), ("join", Z, E0, None), ("chain", E0, Y), ("chain", Y, E0), ("dedup", E0), ("sel", E0, K),
               ("join", ("slice", ("proj", X, ("a", "b")), None, 0), Z, ("lt", B, D)), ("dedup", ("join", ("slice", ("slice", X, 0, 2), 0, 0), Z, None)),
